@@ -294,17 +294,13 @@ class RunTaskHandler(StabilizeHandler[RunTask]):
 
             # CONCURRENT EXECUTION CHECK: Prevent duplicate execution of same task
             stale_threshold_s = 3600
+            already_executing = False
             with RunTaskHandler._executing_lock:
                 existing_start = RunTaskHandler._executing_tasks.get(task_model.id)
                 if existing_start is not None:
                     elapsed = time.monotonic() - existing_start
                     if elapsed < stale_threshold_s:
-                        logger.debug(
-                            "Ignoring duplicate RunTask for %s - already executing (%.1fs)",
-                            task_model.name,
-                            elapsed,
-                        )
-                        return
+                        already_executing = True
                     else:
                         logger.warning(
                             "Stale execution lock for task %s (%.1fs > %ds), allowing re-execution",
@@ -312,7 +308,23 @@ class RunTaskHandler(StabilizeHandler[RunTask]):
                             elapsed,
                             stale_threshold_s,
                         )
-                RunTaskHandler._executing_tasks[task_model.id] = time.monotonic()
+                if not already_executing:
+                    RunTaskHandler._executing_tasks[task_model.id] = time.monotonic()
+
+            if already_executing:
+                # Not necessarily a duplicate: the executing handler may already
+                # have committed a result that queued this message (a buffered
+                # signal resuming the task, a poll continuation) without having
+                # left its handler yet. Dropping it would strand the task
+                # RUNNING with nothing queued, so look at it again once that
+                # handler is done; a true duplicate then finds the task no
+                # longer RUNNING and is ignored.
+                logger.debug(
+                    "RunTask for %s arrived while the task is executing, re-queuing",
+                    task_model.name,
+                )
+                self.queue.push(message.copy_with_attempts(0), self.retry_delay)
+                return
 
             # Register a cooperative cancellation token so a concurrent
             # CancelStage (or a cooperative task) can signal this task to stop.
